@@ -24,6 +24,7 @@ type Fact struct {
 	seq      int
 	t        Term
 	isAssert bool // an obligation reused as assumption for later program points
+	isExit   bool // "unreachable after os.Exit": not used by the vacuity probe
 }
 
 // Oblig is one proof obligation.
@@ -111,6 +112,9 @@ type FnCtx struct {
 	pureMode  bool
 	pkgOverride *types.Package
 	initPhase   bool
+	lastCall    map[string]Value
+	exitReach   []Term
+	callSeen    map[string]int
 	rangeGhost  map[*ssa.Range]string
 	collectApps bool
 	apps        []specApp
@@ -225,11 +229,18 @@ func (fc *FnCtx) assume(t Term) {
 		return
 	}
 	fc.seq++
-	fc.facts = append(fc.facts, Fact{fc.curBlk, fc.seq, t, false})
+	fc.facts = append(fc.facts, Fact{blk: fc.curBlk, seq: fc.seq, t: t})
 }
+
+var safetyKinds = map[string]bool{"pre": true, "pre-nopanic": true, "pre-global": true, "bounds": true, "nil": true, "makelen": true, "div0": true, "typeassert": true, "shift": true, "nilmap": true, "panic": true}
 
 func (fc *FnCtx) oblige(kind, desc string, pos token.Pos, goal Term) *Oblig {
 	if fc.pureMode {
+		return &Oblig{}
+	}
+	if fc.c != nil && fc.c.SkipSafety && safetyKinds[kind] {
+		// effects-only contract: "if the function does not panic, then ..."
+		fc.assume(goal)
 		return &Oblig{}
 	}
 	fc.seq++
@@ -246,7 +257,7 @@ func (fc *FnCtx) oblige(kind, desc string, pos token.Pos, goal Term) *Oblig {
 	// after asserting, the fact may be assumed downstream
 	if goal.S != "true" {
 		fc.seq++
-		fc.facts = append(fc.facts, Fact{fc.curBlk, fc.seq, goal, true})
+		fc.facts = append(fc.facts, Fact{blk: fc.curBlk, seq: fc.seq, t: goal, isAssert: true})
 	}
 	return o
 }
